@@ -9,6 +9,7 @@ reference parser (vlib/ref_http.py) reads from the bytes.  Client side: ``circui
 contains ``circuits.protocols.http.HTTP``) is fed ``read`` events; the ``response`` events are the observation.
 """
 import gzip
+import zlib
 import hashlib
 import os
 import random
@@ -556,9 +557,14 @@ SERVER_SEQUENCES = [
 GZ = gzip.compress(b'hello world, hello world, hello world', mtime=0)
 # a body that compresses well: while it arrives, the decompressed bytes so far exceed the (compressed) Content-Length early
 GZ2 = gzip.compress(b''.join(b'line %03d: the quick brown fox jumps over the lazy dog\n' % i for i in range(40)), mtime=0)
+DF = zlib.compress(b'deflate coded body, deflate coded body, deflate coded body')
 SERVER_ENCODED = [
     b'POST /gz HTTP/1.1\r\nHost: h\r\nContent-Encoding: gzip\r\nContent-Length: %d\r\n\r\n%s' % (len(GZ), GZ),
     b'POST /gz2 HTTP/1.1\r\nHost: h\r\nContent-Encoding: gzip\r\nContent-Length: %d\r\n\r\n%s' % (len(GZ2), GZ2),
+    # content coding AND chunked transfer coding together: the decompressor is fed chunk by chunk (one chunk, three chunks, deflate)
+    b'POST /gzc1 HTTP/1.1\r\nHost: h\r\nContent-Encoding: gzip\r\nTransfer-Encoding: chunked\r\n\r\n' + chunked([GZ]),
+    b'POST /gzc3 HTTP/1.1\r\nHost: h\r\nContent-Encoding: gzip\r\nTransfer-Encoding: chunked\r\n\r\n' + chunked([GZ[:7], GZ[7:20], GZ[20:]]),
+    b'POST /dfc HTTP/1.1\r\nHost: h\r\nContent-Encoding: deflate\r\nTransfer-Encoding: chunked\r\n\r\n' + chunked([DF[:5], DF[5:]], trailers=b'X-T: 1\r\n'),
 ]
 
 CLIENT_CORPUS = [
@@ -590,6 +596,8 @@ CLIENT_SEQUENCES = [
 CLIENT_ENCODED = [
     b'HTTP/1.1 200 OK\r\nContent-Encoding: gzip\r\nContent-Length: %d\r\n\r\n%s' % (len(GZ), GZ),
     b'HTTP/1.1 200 OK\r\nContent-Encoding: gzip\r\nContent-Length: %d\r\n\r\n%s' % (len(GZ2), GZ2),
+    b'HTTP/1.1 200 OK\r\nContent-Encoding: gzip\r\nTransfer-Encoding: chunked\r\n\r\n' + chunked([GZ]),
+    b'HTTP/1.1 200 OK\r\nContent-Encoding: gzip\r\nTransfer-Encoding: chunked\r\n\r\n' + chunked([GZ[:7], GZ[7:20], GZ[20:]]),
 ]
 
 
